@@ -30,18 +30,19 @@ func (o SeqOp) String() string {
 
 // SeqSpec describes an explicit-state search over operation histories on an engine-only node.
 type SeqSpec struct {
-	Name     string
-	Cfg      hapi.Config
-	Clients  int
-	Ramp     []SeqOp // executed before every history (builds a non-initial state), not explored
-	Alphabet []SeqOp
-	Depth    int
-	Drain    bool  // extend every state by unlock-all + clock advance and require a clean engine
-	DrainFor int64 // how long to advance in the drain (default 40s)
-	NoDedupe bool  // pure tree (cross-check of the canonical key)
-	Restart  bool  // after every history: flush the persistence queue, kill the node, start a new one on the same directory
-	Full     bool  // full node (listener, Serve) instead of engine only
+	Name      string
+	Cfg       hapi.Config
+	Clients   int
+	Ramp      []SeqOp // executed before every history (builds a non-initial state), not explored
+	Alphabet  []SeqOp
+	Depth     int
+	Drain     bool  // extend every state by unlock-all + clock advance and require a clean engine
+	DrainFor  int64 // how long to advance in the drain (default 40s)
+	NoDedupe  bool  // pure tree (cross-check of the canonical key)
+	Restart   bool  // after every history: flush the persistence queue, kill the node, start a new one on the same directory
+	Full      bool  // full node (listener, Serve) instead of engine only
 	MaxStates int
+	MonC01    bool // install the C01 grant-rule monitor (checked at every release of a shard mutex)
 }
 
 // SeqStep is what one step produced.
@@ -67,6 +68,7 @@ type SeqRun struct {
 	Steps   []SeqStep
 	Drained *hapi.Snapshot
 	DrainEv []hapi.Event
+	Monitor []explore.Violation
 	RT      *vrt.RT
 }
 
@@ -119,6 +121,11 @@ func ExecSeq(spec *SeqSpec, hist []SeqOp) (*SeqRun, string) {
 		clients := make([]hapi.Client, nc)
 		for i := range clients {
 			clients[i] = node.NewMemClient(clientName(i))
+		}
+		if spec.MonC01 {
+			er := &EngRun{}
+			MonitorC01(node, er)
+			defer func() { run.Monitor = er.Monitor }()
 		}
 		vrt.AdvanceTo(1300 * ms)
 		step := func(o SeqOp, snap bool) SeqStep {
@@ -245,6 +252,7 @@ func SeqWorker(spec *SeqSpec, oracles []SeqOracle, c *Ctx, task []byte) interfac
 		last := run.Steps[len(run.Steps)-1]
 		res.Key = shortHash(canonNoReq(last.Snap))
 		res.Obs = evStr(last.Events)
+		vs = append(vs, run.Monitor...)
 		for _, o := range oracles {
 			vs = append(vs, o(run)...)
 		}
